@@ -163,9 +163,50 @@ pub fn no_std(m: &Model, ctx: &mut Ctx, rule: &str) {
     // module wrapper import
     if let Some(gm) = m.fns.iter().find(|f| f.name == "generate_module" && f.self_ty.as_deref() == Some("Rasn")) {
         ctx.oblige(rule, "no_std:module-import", true);
+        // the imported item is decided by the option: the local that is spliced into `use #..;` is evaluated for both values
         let b = tok(&gm.block);
-        if !b.contains(&model::norm_tokens("let lazy_const_import = if self.config.no_std_compliant_bindings { quote!(lazy_static::lazy_static) } else { quote!(std::sync::LazyLock) };")) || !b.contains(&model::norm_tokens("use #lazy_const_import;")) {
-            ctx.violate(rule, "no_std:module-import", &gm.file, gm.line, "the module wrapper must import lazy_static::lazy_static exactly when no_std_compliant_bindings is set, std::sync::LazyLock otherwise");
+        struct L { out: Vec<syn::Local> }
+        impl model::DeepCb for L {
+            fn local(&mut self, l: &syn::Local) {
+                if let Some(init) = &l.init {
+                    if tok(&init.expr).contains("no_std_compliant_bindings") && tok(&init.expr).contains("LazyLock") {
+                        self.out.push(l.clone());
+                    }
+                }
+            }
+        }
+        let mut lc = L { out: vec![] };
+        model::deep_walk_block(&gm.block, &mut lc);
+        match lc.out.first() {
+            None => ctx.violate(rule, "no_std:module-import", &gm.file, gm.line, "the module wrapper must import lazy_static::lazy_static exactly when no_std_compliant_bindings is set, std::sync::LazyLock otherwise (no such decision found)"),
+            Some(l) => {
+                use crate::eval::{Env, Evaluator, Val};
+                let var = tok(&l.pat);
+                let consts = const_resolver(m);
+                let hook = |_: &Evaluator, _: &str, _: &[Val]| -> Option<Result<Val, String>> { None };
+                let ev = Evaluator { consts: &consts, call_hook: &hook, inline: None };
+                for no_std in [false, true] {
+                    let mut cfg = BTreeMap::new();
+                    cfg.insert("no_std_compliant_bindings".to_string(), Val::Bool(no_std));
+                    let mut me = BTreeMap::new();
+                    me.insert("config".to_string(), Val::Ctor("Config".into(), vec![], cfg));
+                    let mut env = Env::new();
+                    env.insert("self".into(), Val::Ctor("Rasn".into(), vec![], me));
+                    match ev.eval(&l.init.as_ref().unwrap().expr, &mut env) {
+                        Ok(v) => {
+                            let t = v.show().replace(' ', "");
+                            let want = if no_std { "lazy_static::lazy_static" } else { "std::sync::LazyLock" };
+                            if !t.contains(want) {
+                                ctx.violate(rule, "no_std:module-import", &gm.file, span_line(l), &format!("with no_std_compliant_bindings = {} the module wrapper imports `{}`, expected `{}`", no_std, t, want));
+                            }
+                        }
+                        Err(e) => ctx.fail_closed(rule, &format!("[no_std module import]: {}", e)),
+                    }
+                }
+                if !b.contains(&model::norm_tokens(&format!("use #{};", var))) {
+                    ctx.violate(rule, "no_std:module-import", &gm.file, gm.line, &format!("the decision `{}` is not spliced into a `use` line of the module wrapper", var));
+                }
+            }
         }
     }
     // callers pass the option itself
@@ -205,18 +246,9 @@ fn from_impls(m: &Model, ctx: &mut Ctx) {
         ctx.violate("C19.delta", "from_impls:block", &f.file, f.line, "generate_choice must consult generate_from_impls exactly once");
         return;
     }
-    let blk = tok(&c.out[0].then_branch);
-    for (key, needle, msg) in [
-        ("from_impls:keeps-choice", "return Ok(std::iter::once(choice_str).chain(", "with generate_from_impls the output must start with the unmodified CHOICE item"),
-        ("from_impls:unique-payload", "if map[&ty.to_string()]>1{return None;}", "a From impl is generated only for alternatives whose payload type is unique within the CHOICE (count > 1 => skipped)"),
-        ("from_impls:template", "Some(choice_from_impl_template(&name,o_name,ty))", "only choice_from_impl_template items may be appended"),
-        ("from_impls:count", ".and_modify(|counter|*counter+=1).or_insert(1)", "payload types must be counted once per alternative"),
-    ] {
-        ctx.oblige("C19.delta", key, true);
-        if !blk.contains(&model::norm_tokens(needle)) {
-            ctx.violate("C19.delta", key, &f.file, span_line(&c.out[0]), msg);
-        }
-    }
+    // what the guarded block emits is decided by evaluation (= C01.fromimpl): the CHOICE item first, then one From impl for
+    // every alternative whose Rust type occurs exactly once
+    crate::rules::c01::from_impls(m, ctx, "C19.delta");
     // without the option: the same choice_str
     ctx.oblige("C19.delta", "from_impls:off", true);
     let body = tok(&f.block);
@@ -234,17 +266,68 @@ fn from_impls(m: &Model, ctx: &mut Ctx) {
 }
 
 fn imports(m: &Model, ctx: &mut Ctx) {
+    use crate::eval::{Env, Evaluator, Val};
+    use std::collections::BTreeMap as Map;
     let Some(gm) = m.fns.iter().find(|f| f.name == "generate_module" && f.self_ty.as_deref() == Some("Rasn")) else { return };
     let b = tok(&gm.block);
-    for (key, needle, msg) in [
-        ("wildcard", "let used_imports=if self.config.default_wildcard_imports{vec![TokenStream::from_str(\"*\").unwrap()]}else{usages.unwrap_or(vec![TokenStream::from_str(\"*\").unwrap()])};", "default_wildcard_imports may only replace the import list inside the braces by `*`"),
-        ("custom", ".custom_imports.iter().map(|i|TokenStream::from_str(i.as_str()).map(|i|quote!(use #i;)))", "custom_imports may only add `use <path>;` lines"),
-        ("custom-position", "#(#custom_imports)*#(#imports)*#(#pdus)*", "custom imports come after the fixed prelude and before the module imports and definitions"),
-    ] {
-        ctx.oblige("C19.delta", &format!("imports:{}", key), true);
-        if !b.contains(&model::norm_tokens(needle)) {
-            ctx.violate("C19.delta", &format!("imports:{}", key), &gm.file, gm.line, msg);
+    let consts = const_resolver(m);
+    // custom_imports only adds `use <path>;` lines: the local built from the option is evaluated — one line per entry, in order,
+    // and the option itself is left as it was (it is read again for the next module)
+    struct L { out: Vec<syn::Local> }
+    impl model::DeepCb for L {
+        fn local(&mut self, l: &syn::Local) {
+            if let Some(init) = &l.init {
+                if tok(&init.expr).contains("custom_imports") {
+                    self.out.push(l.clone());
+                }
+            }
         }
+    }
+    let mut lc = L { out: vec![] };
+    model::deep_walk_block(&gm.block, &mut lc);
+    ctx.oblige("C19.delta", "imports:custom", true);
+    match lc.out.first() {
+        None => ctx.violate("C19.delta", "imports:custom", &gm.file, gm.line, "custom_imports is not turned into `use <path>;` lines"),
+        Some(l) => {
+            let hook = |_: &Evaluator, name: &str, a: &[Val]| -> Option<Result<Val, String>> {
+                match name {
+                    "TokenStream::from_str" => match a.first() { Some(Val::Str(t)) => Some(Ok(Val::Ctor("Ok".into(), vec![Val::Sym(t.clone())], Map::new()))), _ => None },
+                    _ => None,
+                }
+            };
+            let ev = Evaluator { consts: &consts, call_hook: &hook, inline: None };
+            for list in [vec![], vec!["a::B"], vec!["a::B", "c::d::E"]] {
+                let mut cfg = Map::new();
+                cfg.insert("custom_imports".to_string(), Val::List(list.iter().map(|x| Val::Str(x.to_string())).collect()));
+                let mut me = Map::new();
+                me.insert("config".to_string(), Val::Ctor("Config".into(), vec![], cfg));
+                let mut env = Env::new();
+                env.insert("self".into(), Val::Ctor("Rasn".into(), vec![], me));
+                match ev.eval(&l.init.as_ref().unwrap().expr, &mut env) {
+                    Ok(v) => {
+                        let v = match v { Val::Ctor(n, mut p, _) if n == "Ok" && p.len() == 1 => p.remove(0), o => o };
+                        let lines: Vec<String> = match &v { Val::List(l) => l.iter().map(|x| x.show().replace(' ', "")).collect(), o => vec![o.show()] };
+                        let want: Vec<String> = list.iter().map(|x| format!("use{};", x)).collect();
+                        if lines != want {
+                            ctx.violate("C19.delta", "imports:custom", &gm.file, span_line(l), &format!("custom_imports {:?} is rendered as {:?}; custom_imports may only add one `use <path>;` line per entry, in order", list, lines));
+                        }
+                        let after = match env.get("self") { Some(Val::Ctor(_, _, f)) => match f.get("config") { Some(Val::Ctor(_, _, c)) => c.get("custom_imports").map(|x| x.show()), _ => None }, _ => None };
+                        let before = Val::List(list.iter().map(|x| Val::Str(x.to_string())).collect()).show();
+                        if after.as_deref() != Some(before.as_str()) {
+                            ctx.violate("C19.delta", "imports:custom", &gm.file, span_line(l), &format!("rendering the custom imports changes the option itself ({} -> {:?}): the next module of the same run gets a different import list", before, after));
+                        }
+                    }
+                    Err(e) => ctx.fail_closed("C19.delta", &format!("[custom imports {:?}]: {}", list, e)),
+                }
+            }
+        }
+    }
+    // default_wildcard_imports only replaces the import list by `*` (= C01.imports with the option set)
+    crate::rules::c01::import_lists_with(m, ctx, "C19.delta", true);
+    // position of the custom imports in the module template
+    ctx.oblige("C19.delta", "imports:custom-position", true);
+    if !b.contains(&model::norm_tokens("#(#custom_imports)*#(#imports)*#(#pdus)*")) {
+        ctx.violate("C19.delta", "imports:custom-position", &gm.file, gm.line, "custom imports come after the fixed prelude and before the module imports and definitions");
     }
 }
 
@@ -262,18 +345,66 @@ fn derives(m: &Model, ctx: &mut Ctx) {
             }
         }
     }
+    // Rasn::new merges the user's derives into the required ones: evaluated on annotation lists — the result starts with
+    // REQUIRED_DERIVES, every user derive follows once (in order, none twice, none lost), and what is not a derive stays an
+    // annotation of its own
     let newf: Vec<&FnInfo> = m.fns.iter().filter(|f| f.name == "new" && f.self_ty.as_deref() == Some("Rasn")).collect();
     if let Some(f) = newf.first() {
+        use crate::eval::{Env, Evaluator, Val};
+        use std::collections::BTreeMap as Map;
         ctx.func(&f.key);
-        let b = tok(&f.block);
-        for (key, needle, msg) in [
-            ("merge-start", "let mut required_derives:Vec<_>=Self::REQUIRED_DERIVES.into_iter().map(str::to_owned).collect();", "the merged derive list must start from REQUIRED_DERIVES"),
-            ("merge-dedupe", "if !required_derives.iter().any(|d|d==derive){required_derives.push(derive.to_owned());}", "user derives are appended only when not already present (listing a derive twice must not duplicate it)"),
-            ("non-derive-kept", "else{non_derive_annotations.push(cfg_annotation);}", "non-derive annotations are kept as they are"),
-        ] {
-            ctx.oblige("C19.derives", key, true);
-            if !b.contains(&model::norm_tokens(needle)) {
-                ctx.violate("C19.derives", key, &f.file, f.line, msg);
+        let base: Vec<String> = req.and_then(|c| str_array(&c.expr)).unwrap_or_default();
+        let base2 = base.clone();
+        let cr0 = const_resolver(m);
+        let consts = move |name: &str| -> Option<Val> {
+            let last = name.rsplit("::").next().unwrap_or(name).trim();
+            if last == "REQUIRED_DERIVES" { Some(Val::List(base2.iter().map(|s| Val::Str(s.clone())).collect())) } else { cr0(name) }
+        };
+        let hook = |_: &Evaluator, name: &str, a: &[Val]| -> Option<Result<Val, String>> {
+            match name {
+                "parse_rust_derive_annotation" => match a.first() {
+                    Some(Val::Str(t)) => Some(Ok(match t.strip_prefix("#[derive(").and_then(|r| r.strip_suffix(")]")) {
+                        Some(inner) => Val::Ctor("Ok".into(), vec![Val::Tuple(vec![Val::Str(String::new()), Val::List(inner.split(',').map(|d| Val::Str(d.trim().to_string())).collect())])], Map::new()),
+                        None => Val::Ctor("Err".into(), vec![Val::Sym("not a derive".into())], Map::new()),
+                    })),
+                    _ => None,
+                },
+                _ => None,
+            }
+        };
+        let ev = Evaluator { consts: &consts, call_hook: &hook, inline: None };
+        let params: Vec<String> = f.sig.inputs.iter().filter_map(|a| match a { syn::FnArg::Typed(t) => Some(tok(&t.pat).trim_start_matches("mut ").to_string()), _ => None }).collect();
+        for annots in [vec![], vec!["#[derive(Copy)]"], vec!["#[derive(Debug, PartialOrd, Clone)]", "#[repr(C)]"], vec!["#[repr(C)]", "#[derive(Ord)]", "#[derive(Ord, Default)]"]] {
+            let key = format!("merge:{:?}", annots);
+            ctx.oblige("C19.derives", &key, true);
+            let mut cfg = Map::new();
+            cfg.insert("type_annotations".to_string(), Val::List(annots.iter().map(|a| Val::Str(a.to_string())).collect()));
+            let mut env = Env::new();
+            for (i, p) in params.iter().enumerate() {
+                env.insert(p.clone(), if i == 0 { Val::Ctor("Config".into(), vec![], cfg.clone()) } else { Val::Sym(format!("arg{}", i)) });
+            }
+            let mut want = base.clone();
+            let mut kept: Vec<String> = vec![];
+            for a in &annots {
+                match a.strip_prefix("#[derive(").and_then(|r| r.strip_suffix(")]")) {
+                    Some(inner) => for d in inner.split(',').map(|d| d.trim().to_string()) { if !want.contains(&d) { want.push(d); } },
+                    None => kept.push(a.to_string()),
+                }
+            }
+            match ev.eval_fn_body(&f.block, &mut env) {
+                Ok(Val::Ctor(_, _, fl)) => {
+                    let strs = |v: Option<&Val>| -> Vec<String> { match v { Some(Val::List(l)) => l.iter().map(|x| match x { Val::Str(s) => s.clone(), o => o.show() }).collect(), _ => vec!["?".into()] } };
+                    let got = strs(fl.get("required_derives"));
+                    let got_kept = match fl.get("config") { Some(Val::Ctor(_, _, c)) => strs(c.get("type_annotations")), _ => vec!["?".into()] };
+                    if got != want {
+                        ctx.violate("C19.derives", "merge", &f.file, f.line, &format!("Rasn::new with type_annotations {:?} derives {:?}; expected the required derives followed by each user derive once: {:?}", annots, got, want));
+                    }
+                    if got_kept != kept {
+                        ctx.violate("C19.derives", "non-derive-kept", &f.file, f.line, &format!("Rasn::new with type_annotations {:?} keeps the annotations {:?}; expected {:?} (what is not a derive stays as it is)", annots, got_kept, kept));
+                    }
+                }
+                Ok(o) => ctx.fail_closed("C19.derives", &format!("[{}]: Rasn::new evaluates to {}", key, o.show().chars().take(100).collect::<String>())),
+                Err(e) => ctx.fail_closed("C19.derives", &format!("[{}]: {}", key, e)),
             }
         }
     } else {
@@ -378,11 +509,45 @@ fn derives(m: &Model, ctx: &mut Ctx) {
         }
         ctx.floor("C19.derives/needs-copy-sites", sites, 15);
     }
+    // join_annotations evaluated: the custom and required annotations are prepended exactly for type items, empty elements
+    // are skipped, the others are joined inside one #[rasn(..)]
     if let Some(f) = anchor_fn(m, ctx, "C19.derives", Some("Rasn"), "join_annotations", None) {
-        ctx.oblige("C19.derives", "join-type-annotation", true);
-        let b = tok(&f.block);
-        if !b.contains(&model::norm_tokens("if is_type_annotation { Ok(quote!(#(#custom_and_required)* #annotations)) } else { Ok(annotations) }")) {
-            ctx.violate("C19.derives", "join-type-annotation", &f.file, f.line, "join_annotations must prepend the custom and required annotations exactly for type items");
+        use crate::eval::{Env, Evaluator, Val};
+        use std::collections::BTreeMap as Map;
+        let consts = const_resolver(m);
+        let hook = |_: &Evaluator, name: &str, a: &[Val]| -> Option<Result<Val, String>> {
+            match name {
+                ".required_annotations" => Some(Ok(Val::Ctor("Ok".into(), vec![Val::List(vec![Val::Sym("#[derive(REQ)]".into()), Val::Sym("#[custom]".into())])], Map::new()))),
+                "Punct::new" => match a.first() { Some(Val::Char(c)) => Some(Ok(Val::Str(c.to_string()))), _ => None },
+                _ => None,
+            }
+        };
+        let ev = Evaluator { consts: &consts, call_hook: &hook, inline: None };
+        let params: Vec<String> = f.sig.inputs.iter().filter_map(|a| match a { syn::FnArg::Typed(t) => Some(tok(&t.pat)), _ => None }).collect();
+        for (elems, is_type) in [(vec!["delegate", "", "tag(1)"], true), (vec!["delegate", "", "tag(1)"], false), (vec!["", ""], true), (vec![], false)] {
+            let key = format!("join:{:?}:type={}", elems, is_type);
+            ctx.oblige("C19.derives", &key, true);
+            let mut env = Env::new();
+            env.insert("self".into(), Val::ctor("Rasn"));
+            env.insert(params.first().cloned().unwrap_or("elements".into()), Val::List(elems.iter().map(|e| Val::Str(e.to_string())).collect()));
+            env.insert(params.get(1).cloned().unwrap_or("needs_copy".into()), Val::Bool(false));
+            env.insert(params.get(2).cloned().unwrap_or("is_type_annotation".into()), Val::Bool(is_type));
+            match ev.eval_fn_body(&f.block, &mut env) {
+                Ok(Val::Ctor(ok, p, _)) if ok == "Ok" => {
+                    let out = p.first().map(|v| match v { Val::Sym(s) | Val::Str(s) => s.clone(), o => o.show() }).unwrap_or_default().replace(' ', "").replace('"', "");
+                    let has_req = out.contains("derive(REQ)") && out.contains("#[custom]");
+                    let non_empty: Vec<&&str> = elems.iter().filter(|e| !e.is_empty()).collect();
+                    let rasn_ok = if non_empty.is_empty() { !out.contains("#[rasn(") } else { out.contains(&format!("#[rasn({})]", non_empty.iter().map(|e| e.to_string()).collect::<Vec<_>>().join(","))) };
+                    if has_req != is_type {
+                        ctx.violate("C19.derives", "join-type-annotation", &f.file, f.line, &format!("join_annotations({:?}, .., is_type_annotation = {}) yields `{}`: the derive line and the custom annotations belong on type items and only there", elems, is_type, out));
+                    }
+                    if !rasn_ok {
+                        ctx.violate("C19.derives", "join-rasn-attribute", &f.file, f.line, &format!("join_annotations({:?}) yields `{}`: the non-empty elements are joined by commas inside one #[rasn(..)], nothing is emitted for none", elems, out));
+                    }
+                }
+                Ok(o) => ctx.fail_closed("C19.derives", &format!("[{}]: {}", key, o.show().chars().take(100).collect::<String>())),
+                Err(e) => ctx.fail_closed("C19.derives", &format!("[{}]: {}", key, e)),
+            }
         }
     }
 }
